@@ -181,7 +181,7 @@ func checkECB(c ecbCase, r *h.Rec) error {
 func TestC02_ECBRandom(t *testing.T) {
 	observeDispatch()
 	st := structured()
-	h.Prop(t, h.P{Name: "ecb-random", Quick: 20000, Thorough: 600000, Journal: true}, func(rt *rapid.T) ecbCase {
+	h.Prop(t, h.P{Name: "ecb-random", Quick: 15000, Thorough: 600000, Journal: true}, func(rt *rapid.T) ecbCase {
 		var c ecbCase
 		switch rapid.IntRange(0, 9).Draw(rt, "keyKind") {
 		case 0:
@@ -321,7 +321,7 @@ func TestC02_ConcurrentBlocks(t *testing.T) {
 			}
 		}
 	}, checkCB)
-	h.Prop(t, h.P{Name: "blocks-random", Quick: 20000, Thorough: 600000, Journal: true}, func(rt *rapid.T) cbCase {
+	h.Prop(t, h.P{Name: "blocks-random", Quick: 15000, Thorough: 600000, Journal: true}, func(rt *rapid.T) cbCase {
 		var c cbCase
 		switch rapid.IntRange(0, 9).Draw(rt, "keyKind") {
 		case 0:
